@@ -27,6 +27,7 @@ pub fn run(name : &str, ctx : &Ctx, out : &mut Out) -> bool
         "memsys_selftest" => selftest::memsys_vs_real(ctx, out),
         "c17_contradiction" => hist::contradiction(ctx, out),
         "c10_clean_build" => hist::clean_build(ctx, out),
+        "swap" => hist::swap(ctx, out),
         "sched" => sched::schedules(ctx, out),
         "crash" => crash::crashes(ctx, out),
         _ => return false,
